@@ -2,7 +2,7 @@
 # Development helper (not used by any registered command): runs a check against
 # a modified scratch copy of /repo without touching /repo or /verif, so it is
 # safe while a background run is using /repo.
-#   altrun.sh <patch.diff | revert:<commit>> <Cxx> [tier] [check args...]
+#   altrun.sh <patch.diff | revert:<commit> | none> <Cxx> [tier] [check args...]
 set -u
 mod="$1"; prop="$2"; tier="${3:-quick}"; shift; shift; shift || true
 here="$(cd "$(dirname "$0")" && pwd)"
@@ -10,6 +10,7 @@ d="$(mktemp -d /tmp/alt.XXXXXX)"
 [ -n "${ALT_KEEP:-}" ] && echo "keeping $d" || trap 'git -C /repo worktree remove --force "$d/repo" >/dev/null 2>&1; rm -rf "$d"' EXIT
 git -C /repo worktree add -q --detach "$d/repo" HEAD || exit 2
 case "$mod" in
+  none) ;;
   revert:*) git -C "$d/repo" revert --no-commit "${mod#revert:}" >/dev/null || { echo "revert failed"; exit 2; } ;;
   *) git -C "$d/repo" apply "$mod" || { echo "apply failed"; exit 2; } ;;
 esac
